@@ -10,7 +10,10 @@ use zvcore::explore::Verdict;
 use zvcore::refcodec as rc;
 use zvcore::world::{self, WMode};
 
-/// ops: 0 sub a, 1 sub b, 2 unsub a, 3 unsub b
+/// ops: 0..3 subscribe to TOPICS[i], 3..6 unsubscribe from TOPICS[i-3]
+/// (the alphabet contains a topic that is a proper prefix of another one, and an unrelated one)
+const TOPICS: [&str; 3] = ["a", "ab", "b"];
+const NT: u8 = 3;
 #[derive(Clone, Debug)]
 struct Params {
     hist: Vec<u8>,
@@ -23,11 +26,7 @@ struct Params {
 }
 
 fn topic(op: u8) -> &'static str {
-    if op % 2 == 0 {
-        "a"
-    } else {
-        "b"
-    }
+    TOPICS[(op % NT) as usize]
 }
 
 fn fold(msgs: &[Vec<Vec<u8>>]) -> BTreeMap<Vec<u8>, i32> {
@@ -69,8 +68,8 @@ fn scenario(pr: &Params) -> Verdict {
         let mut sock = sock;
         async move {
             for (i, op) in hist.iter().enumerate() {
-                let r = if *op < 2 { sock.subscribe(topic(*op)).await } else { sock.unsubscribe(topic(*op)).await };
-                world::log(format!("call#{} {}({}) -> {}", i, if *op < 2 { "subscribe" } else { "unsubscribe" }, topic(*op), e3::ok_or_err(&r)));
+                let r = if *op < NT { sock.subscribe(topic(*op)).await } else { sock.unsubscribe(topic(*op)).await };
+                world::log(format!("call#{} {}({}) -> {}", i, if *op < NT { "subscribe" } else { "unsubscribe" }, topic(*op), e3::ok_or_err(&r)));
             }
             world::set_cond("api-done");
             world::wait_cond("never").await;
@@ -99,7 +98,7 @@ fn scenario(pr: &Params) -> Verdict {
     e3::set_hash_key(0);
     let mut v = Verdict::default();
     v.truncated = end != world::RunEnd::Quiescent;
-    let names: Vec<String> = pr.hist.iter().map(|o| format!("{}({})", if *o < 2 { "subscribe" } else { "unsubscribe" }, topic(*o))).collect();
+    let names: Vec<String> = pr.hist.iter().map(|o| format!("{}({})", if *o < NT { "subscribe" } else { "unsubscribe" }, topic(*o))).collect();
     let what = format!("SUB socket, calls {:?}, {} peers joining concurrently{}", names, n, pr.failing.map(|p| format!(", peer {}'s connection breaks at some point", p)).unwrap_or_default());
     for p in world::panics() {
         let class = if p.contains("sub.rs") { "panic/sub.rs/unwrap-on-failed-send" } else { "panic" };
@@ -112,7 +111,7 @@ fn scenario(pr: &Params) -> Verdict {
     let mut set: std::collections::BTreeSet<&str> = Default::default();
     let mut double = false;
     for op in &pr.hist {
-        if *op < 2 {
+        if *op < NT {
             if !set.insert(topic(*op)) {
                 double = true;
             }
@@ -127,7 +126,7 @@ fn scenario(pr: &Params) -> Verdict {
     let views: Vec<(usize, BTreeMap<Vec<u8>, i32>)> = live.iter().map(|p| (*p, fold(&conns[*p].tap_messages()))).collect();
     let subscribed = |v: &BTreeMap<Vec<u8>, i32>, t: &str| v.get(t.as_bytes()).copied().unwrap_or(0) > 0;
     if world::panics().is_empty() && !v.truncated && world::cond("api-done") {
-        for t in ["a", "b"] {
+        for t in TOPICS {
             let states: Vec<(usize, bool)> = views.iter().map(|(p, v)| (*p, subscribed(v, t))).collect();
             if states.iter().any(|s| s.1 != states[0].1) {
                 let class = if double { "peers-disagree/double-subscribe-history" } else if pr.failing.is_some() { "peers-disagree/one-peer-failing" } else { "peers-disagree/concurrent-join" };
@@ -182,7 +181,7 @@ pub fn run(tier: Tier, replay: Option<String>) -> i32 {
     for _ in 0..max_len {
         let mut next = Vec::new();
         for h in &level {
-            for op in 0..4u8 {
+            for op in 0..2 * NT {
                 let mut h2 = h.clone();
                 h2.push(op);
                 next.push(h2);
@@ -202,8 +201,8 @@ pub fn run(tier: Tier, replay: Option<String>) -> i32 {
                     }
                     let pr = Params { hist: h.clone(), peers, failing: None, api_first, hash_key: 0, policy };
                     let pr2 = pr.clone();
-                    let bound = if peers >= 3 { 2 } else { tier.pick(2, 3) };
-                    jobs.push(e3::job(format!("C13/{:?}/{}p/{}/policy{}", h, peers, api_first, policy), pj(&pr), bound, tier.pick(30_000, 600_000), move || scenario(&pr2)));
+                    let bound = if peers >= 3 { 2 } else if peers == 1 { tier.pick(3, 4) } else { tier.pick(2, 3) };
+                    jobs.push(e3::job(format!("C13/{:?}/{}p/{}/policy{}", h, peers, api_first, policy), pj(&pr), bound, tier.pick(100_000, 1_500_000), move || scenario(&pr2)));
                 }
             }
             if peers >= 2 && h.len() <= 3 && !h.is_empty() {
@@ -224,7 +223,7 @@ pub fn run(tier: Tier, replay: Option<String>) -> i32 {
     ck.cov("traces_validated_against_impl", ex);
     ck.cov("call_histories", hists.len() as u64);
     ck.cov("exhaustive", ck.coverage.get("e3_scenarios_capped").and_then(|v| v.as_u64()) == Some(0));
-    ck.cov("explanation", format!("every history of subscribe/unsubscribe calls over topics a, b of length <= {} ({} histories, incl. repeats and never-subscribed topics) on a real SUB socket with 1-2 (thorough 3) raw PUB peers whose attach actors may run at ANY point — including inside peer_connected between the snapshot of the set and the registration, and inside subscribe between the set update and the fan-out (yield points) — every schedule within the deviation bound from 2 default policies and both spawn orders; plus, for histories of length <= 3, one peer whose connection starts failing writes at any point, for each position of the failing peer and 2 (thorough 4) hash keys of the peer table (iteration order). Oracle at quiescence, from the reference-decoded wires folded into per-topic counts (RFC 29): all live peers agree on subscribed / not subscribed for every topic; for histories that never subscribe an already-subscribed topic every live peer's view equals the set implied by the calls; a failing peer does not stop the others from being updated; no panic. states = distinct observed outcomes.", max_len, hists.len()));
+    ck.cov("explanation", format!("every history of subscribe/unsubscribe calls over topics a, ab, b (a proper-prefix pair and an unrelated topic) of length <= {} ({} histories, incl. repeats and never-subscribed topics) on a real SUB socket with 1-2 (thorough 3) raw PUB peers whose attach actors may run at ANY point — including inside peer_connected between the snapshot of the set and the registration, and inside subscribe between the set update and the fan-out (yield points) — every schedule within the deviation bound from 2 default policies and both spawn orders; plus, for histories of length <= 3, one peer whose connection starts failing writes at any point, for each position of the failing peer and 2 (thorough 4) hash keys of the peer table (iteration order). Oracle at quiescence, from the reference-decoded wires folded into per-topic counts (RFC 29): all live peers agree on subscribed / not subscribed for every topic; for histories that never subscribe an already-subscribed topic every live peer's view equals the set implied by the calls; a failing peer does not stop the others from being updated; no panic. states = distinct observed outcomes.", max_len, hists.len()));
     ck.assume("for double-subscribe histories only agreement among peers is demanded (set vs reference-count semantics of the socket is not fixed by the statement)");
     ck.conclude()
 }
